@@ -141,10 +141,13 @@ class Engine:
     # ------------------------------------------------------------------ solver
     def get_solver(s):
         if s.solver is None:
-            s.solver = z3.Solver(); s.solver.set('timeout', s.query_timeout_ms)
+            s.solver = z3.Solver()
+            if not s.no_timeout: s.solver.set('timeout', s.query_timeout_ms)
         return s.solver
 
     def sat(s, pc, extra=None):
+        if s.stats['queries'] % 200 == 199 and s.solver is not None:
+            s.solver = None   # a long-lived z3 solver slows down; start a fresh one regularly
         sol = s.get_solver()
         t0 = time.time(); s.stats['queries'] += 1
         a = pc + [extra] if extra is not None else pc
@@ -669,7 +672,113 @@ class Engine:
 
     def on_path_end(s, st): pass
 
+    def explore(s, work):
+        """DFS over the given work list (shared loop of run / run_parallel)."""
+        while work:
+            st = work.pop()
+            try:
+                s.exec_path(st, work)
+                s.stats['paths'] += 1
+                s.on_path_end(st)
+            except PathEnd:
+                s.stats['infeasible'] += 1
+            except Violation as v:
+                s.stats['paths'] += 1
+                s.record_violation(st, v)
+                if s.stop_on_first: return
+            if s.stats['paths'] > s.max_paths: raise Inconclusive('path budget %d exceeded' % s.max_paths)
+
+    def run_parallel(s, entry, nproc=16, split_target=None):
+        """Explore breadth-first until there are enough pending states, then fork worker processes that each
+        explore a share of them depth-first.  Results (stats, violations, functions seen) are merged."""
+        import json, multiprocessing, tempfile
+        t0 = time.time()
+        if nproc <= 1:
+            v = s.run(entry); return v
+        s.query_timeout_ms_child = s.query_timeout_ms
+        s.solver = None; s.no_timeout = True   # no timeout before forking (z3's timer threads do not survive fork)
+        st = State()
+        for o in s.gobjs: st.add_obj(o)
+        st.model = s.empty_model()
+        ctors = []
+        g = s.M.globals.get('@llvm.global_ctors')
+        if g is not None and g.get('init') and g['init'][0] == 'agg':
+            for t_, el in g['init'][1]:
+                fnref = el[1][1][1]
+                if fnref[0] == 'ref': ctors.append(fnref[1])
+        seq = ctors + [entry]
+        s.push_call(st, seq[0], [], None); st.seq = seq[1:]
+        work = [st]
+        target = split_target or nproc * 6
+        # breadth-first phase
+        while work and len(work) < target:
+            st = work.pop(0)
+            sub = []
+            try:
+                s.exec_path(st, sub)
+                s.stats['paths'] += 1
+            except PathEnd:
+                s.stats['infeasible'] += 1
+            except Violation as v:
+                s.stats['paths'] += 1; s.record_violation(st, v)
+                if s.stop_on_first: work = []; break
+            work.extend(sub)
+            if s.stats['paths'] > 4 * target and len(work) < 2: break
+        if not work:
+            s.stats['wall'] = time.time() - t0
+            return s.violations
+        counter = multiprocessing.Value('i', 0)
+        tmpd = tempfile.mkdtemp(prefix='llsym_')
+        chunks = [[w] for w in work]
+        pids = []
+        base_stats = dict(s.stats); base_viol = list(s.violations)
+        for k in range(nproc):
+            pid = os.fork()
+            if pid == 0:
+                code = 0
+                try:
+                    s.solver = None; s.no_timeout = False; s.stats = {k_: (0 if isinstance(v_, (int, float)) else v_) for k_, v_ in s.stats.items()}
+                    s.violations = []; err = None
+                    try:
+                        while True:
+                            with counter.get_lock():
+                                i = counter.value; counter.value += 1
+                            if i >= len(chunks): break
+                            s.explore(list(chunks[i]))
+                            if s.violations and s.stop_on_first: break
+                    except Inconclusive as e:
+                        err = str(e)
+                    except Exception as e:
+                        import traceback
+                        err = 'engine error: ' + traceback.format_exc()[-1500:]
+                    json.dump(dict(stats=s.stats, violations=s.violations, funcs=sorted(s.funcs_seen), err=err),
+                              open(os.path.join(tmpd, 'r%d.json' % k), 'w'))
+                except BaseException:
+                    code = 3
+                os._exit(code)
+            pids.append(pid)
+        bad = None
+        for pid in pids:
+            _, status = os.waitpid(pid, 0)
+            if status != 0: bad = 'worker exited with status %d' % status
+        s.stats = base_stats; s.violations = base_viol
+        for k in range(nproc):
+            p = os.path.join(tmpd, 'r%d.json' % k)
+            if not os.path.exists(p):
+                bad = bad or 'worker %d produced no result' % k; continue
+            r = json.load(open(p))
+            for k_, v_ in r['stats'].items():
+                if isinstance(v_, (int, float)): s.stats[k_] = s.stats.get(k_, 0) + v_
+            s.violations.extend(r['violations']); s.funcs_seen.update(r['funcs'])
+            if r['err']: bad = bad or r['err']
+        import shutil
+        shutil.rmtree(tmpd, ignore_errors=True)
+        s.stats['wall'] = time.time() - t0
+        if bad: raise Inconclusive(bad)
+        return s.violations
+
     stubs = ()
+    no_timeout = False
     _stubcache = None
 
     def stub_for(s, name):
